@@ -18,7 +18,7 @@ def run(tier: str, seed: int) -> int:
     R = Result("C04", tier, seed)
     known = load_known()
     n, side = (5, 3) if tier == "quick" else (6, 3)
-    p = run_venv("print_tierb.py", [str(n), str(side)], timeout=7200)
+    p = run_venv("print_tierb.py", [str(n), str(side), "8"], timeout=7200)
     bounded = {}
     if p.returncode not in (0, 1):
         R.engine_errors.append("tier-B failed: " + p.stderr[-300:])
@@ -50,9 +50,9 @@ def run(tier: str, seed: int) -> int:
         R.engine_errors.append("no trees explored")
     R.level = "exploration"
     R.coverage = {
-        "evaluations": int(trees) + int(bfs.get("steps", 0)),
+        "evaluations": int(trees) + int(bounded.get("rewritten_results", 0)) + int(bfs.get("steps", 0)),
         "distinct_nontrivial": int(trees),
-        "rule": "all WF trees up to the node bound over the 12 node kinds with leaves {0, 2, -3, 0.5, 1e21, x, y} (distinct by construction; non-trivial = parser-reachable, i.e. no abs node and factorials of literals only) plus the states of the rewriting run",
+        "rule": "all WF trees up to the node bound over the 12 node kinds with leaves {0, 2, -3, 0.5, 1e21, x, y} (distinct by construction; non-trivial = parser-reachable, i.e. no abs node and factorials of literals only) plus the result object of every rule at every node of the two-level forms Op1(A, Op2(B, C)) / Op1(Op2(B, C), A) over 8 operand shapes (printed as returned, not re-cloned) plus the states of the rewriting run",
         "samples": [{"tree": "Power(Multiply(2, x), 2)", "text": "(2x)^2", "reparsed_value_equal": True}, {"tree": "Negate(Multiply(Factorial(2), 3))", "text": "-(2! * 3)", "reparsed_value_equal": True}],
         "exhaustive": True,
         "bounded": {k: v for k, v in bounded.items() if k not in ("failures", "leaves")},
